@@ -21,6 +21,10 @@ def pattern(layer, ext, slot, j):
 
 
 def grain_bytes(layer, ext, slot, n):
+    if slot >= 1000:  # "incompressible" grain: pseudo-random content so that the deflate stream spans several sectors
+        import random as _r
+
+        return _r.Random(slot * 7919 + ext * 31 + layer).randbytes(n)
     return bytes(pattern(layer, ext, slot, j) for j in range(n))
 
 
@@ -361,6 +365,19 @@ def gen_specs(rng: random.Random, n, hints=None):
     for sp in out:
         sp["size"] = total_sectors(sp) * S
     return out
+
+
+def big_specs():
+    """C13: stream-optimized extent with incompressible 64 KiB grains (compressed records of ~128 sectors), and an SE-sparse extent
+    whose clusters sit above 2^32 sectors"""
+    gsz = 128
+    comp = {"mode": "single", "extents": [{"kind": "compressed", "capacity": 6 * gsz, "gsz": gsz, "ngte": 512, "grains": [1000, 1002, None, 1001, "z", 1003], "gap": 0, "cgap": 0}]}
+    comp["size"] = 6 * gsz * 512
+    comp["requests"] = [[0, 4096], [gsz * 512 - 512, 2048], [3 * gsz * 512 + 777, 30000], [0, 2 * gsz * 512]]
+    se = {"mode": "single", "extents": [{"kind": "sesparse", "capacity": 64, "gsz": 16, "grains": [3, None, 0, "z"], "gap": 0, "cluster_base": 0x100000FFF}]}
+    se["size"] = 64 * 512
+    se["requests"] = [[0, 8192], [16 * 512 * 2 - 100, 700]]
+    return [comp, se]
 
 
 def requests(spec, rng, limit=40):
